@@ -90,6 +90,30 @@ def step (s : DState) (toks : List String) : DState × String :=
     match rawOfTokens rest with
     | none => (s.reset, "bad-op")
     | some raw => compileRaw s raw
+  | "cmdcfg" :: rest =>
+    -- the real command (cmd.GetCommand): refused = exit status 1 at any step; ok = the dry-run record
+    match rawOfTokens (rest.take 24), rest.drop 24 with
+    | some flags, [uid, resolv, dual, addrs, via] =>
+      let viaL := decList via
+      let e : Environment := {
+        addrError := viaL.contains "addrerr=1",
+        forceBinary := ((viaL.find? (·.startsWith "binary=")).map (fun s => (s.drop 7).toString)).getD "",
+        ownerGroupsInclude := if viaL.contains "empty:ISTIO_OUTBOUND_OWNER_GROUPS" then some "" else optEnv (rest.getD 9 "~"),
+        ownerGroupsExclude := if viaL.contains "empty:ISTIO_OUTBOUND_OWNER_GROUPS_EXCLUDE" then some "" else optEnv (rest.getD 10 "~"),
+        loCidr := optEnv (rest.getD 23 "~"), envoyUID := dec uid, dualStack := tokBool dual,
+        localAddrs := decList addrs, resolvConf := if resolv == "!" then none else some (decList resolv) }
+      match flags.fill e with
+      | none => (s.reset, "refused")
+      | some raw =>
+        match raw.parse with
+        | .ok c =>
+          let l := if viaL.contains "skip=1" then #[] else (dryRunLog c).toArray
+          ({ spec := s.spec, cfg := some c, v4 := l, v6 := #[] }, s!"ok {l.size}")
+        | .invalid _ => (s.reset, "refused")                       -- Config.Validate, before ProgramIptables
+        | .error _ =>                                                -- errors of Run: not reached with --skip-rule-apply
+          if viaL.contains "skip=1" then (s.reset, "ok 0") else (s.reset, "refused")
+        | .unmodelled w => if viaL.contains "skip=1" then (s.reset, "ok 0") else (s.reset, "unmodelled:" ++ w)
+    | _, _ => (s.reset, "bad-op")
   | "envcfg" :: rest =>
     match rawOfTokens (rest.take 24), rest.drop 24 with
     | some flags, [uid, resolv, dual, addrs, via] =>
@@ -100,7 +124,7 @@ def step (s : DState) (toks : List String) : DState × String :=
         ownerGroupsInclude := if viaL.contains "empty:ISTIO_OUTBOUND_OWNER_GROUPS" then some "" else optEnv (rest.getD 9 "~"),
         ownerGroupsExclude := if viaL.contains "empty:ISTIO_OUTBOUND_OWNER_GROUPS_EXCLUDE" then some "" else optEnv (rest.getD 10 "~"),
         loCidr := optEnv (rest.getD 23 "~"), envoyUID := dec uid, dualStack := tokBool dual,
-        localAddrs := decList addrs, resolvConf := decList resolv }
+        localAddrs := decList addrs, resolvConf := if resolv == "!" then none else some (decList resolv) }
       match flags.fill e with
       | some raw => compileRaw s raw
       | none => (s.reset, "error:environment")
